@@ -81,10 +81,10 @@ where
         *serial += 1;
         *serial
       };
-      {
+      let remove = {
         let observers = Arc::clone(&observers);
         let on_unsubscribe = Arc::clone(&on_unsubscribe);
-        s.set_on_unsubscribe(move || {
+        move || {
           let len = {
             let mut observers = observers.write().unwrap();
             observers.remove(&serial);
@@ -93,15 +93,23 @@ where
           if let Some(on_unsubscribe) = &*on_unsubscribe.read().unwrap() {
             on_unsubscribe.call(len);
           }
-        });
-      }
+        }
+      };
+      s.set_on_unsubscribe(remove.clone());
       let len = {
         let mut observers = observers.write().unwrap();
-        observers.insert(serial, s);
+        observers.insert(serial, s.clone());
         observers.len()
       };
       if let Some(on_subscribe) = &*on_subscribe.read().unwrap() {
         on_subscribe.call(len);
+      }
+      // a subscriber that had already ended when it was handed over (the
+      // second input of a merge whose first input failed at once, say), or
+      // that ended before it was in the map, never runs its teardown (again):
+      // take it out here
+      if !s.is_subscribed() {
+        remove();
       }
     })
   }
